@@ -174,7 +174,7 @@ func genC10(t *rapid.T) CaseC10 {
 	mode := []string{"pregel", "pregel", "dag", "workflow"}[rapid.IntRange(0, 3).Draw(t, "mode")]
 	c := CaseC10{Spec: gkit.GenTop(t, mode, cfg)}
 	c.Input = gkit.GenInput(t, c.Spec.In)
-	c.Paradigm = []string{"invoke", "stream"}[rapid.IntRange(0, 1).Draw(t, "paradigm")]
+	c.Paradigm = []string{"invoke", "stream", "invoke", "stream", "collect", "transform"}[rapid.IntRange(0, 5).Draw(t, "paradigm")]
 	// gate the top-level lambdas (they may then overlap and finish in a generated order)
 	var tags []string
 	allLambdas(c.Spec, "", false, func(n *gkit.NodeSpec, tag string, nm bool) {
